@@ -20,6 +20,8 @@ func init() { keep = checker.Keep }
 // coldStartResult: the very first library calls of the process are rank queries with indexes computed
 // by the oracle (no index builder has run yet).
 var coldStartResult = func() (msg string) {
+	vk.ArmProbe("C01", Case{Style: "cold-start:the process died during its first calls of the library"})
+	defer vk.DisarmProbe()
 	defer func() {
 		if r := recover(); r != nil {
 			msg = fmt.Sprintf("first use in the process panicked: %v", r)
